@@ -482,7 +482,7 @@ Definition buf_extent_list (b : bufspec) (rs : list rreq) : Z :=
          end
   end.
 
-Definition get_into_buffer (a : access) (xt : Z) (rs : list (Z * rreq * list byte))
+Definition get_into_buffer (fmt : Z) (a : access) (xt : Z) (rs : list (Z * rreq * list byte))
   : option (list byte * bool * bool) :=      (* buffer, erange?, some element undefined? *)
   let memt := eff_memt a xt in
   let xsz := xlen_type xt in
@@ -500,6 +500,10 @@ Definition get_into_buffer (a : access) (xt : Z) (rs : list (Z * rreq * list byt
                    let at_ := GUARD + buf_index (ac_buf a) (k0 + fst pe) * msz in
                    if existsb is_undef (snd pe)
                    then Some (poke buf at_ (repeat UNDEF (Z.to_nat msz)), er, true)
+                   else
+                   (* CDF-1/2: NC_BYTE read into unsigned char is exempt from range checking *)
+                   if (fmt <? 5) && (xt =? 1) && (memt =? 7)
+                   then Some (poke buf at_ (snd pe), er, unk)
                    else
                    match convert xt memt (snd pe) with
                    | None => None
@@ -578,7 +582,7 @@ Definition get_rank_op (w : world) (f : filest) (rank : Z) (coll : bool) (a : ac
                  let r := snd kr in
                  let offs := model_offsets g (rq_start r) (rq_count r) (rq_stride r) in
                  (fst kr, r, dk_gather (disk_of w f) (g_xsz g) offs)) (with_bases rs 0) in
-          match get_into_buffer a xt parts with
+          match get_into_buffer (h_format (f_hdr f)) a xt parts with
           | None => (RC_UNMODELLED, [TSkip])
           | Some (buf, er, unk) =>
               ((if unk then RC_ANY else if er then NC_ERANGE else NC_NOERR), [THex buf])
@@ -826,7 +830,7 @@ Definition exec_all (w : world) (o : op) : world * list obs :=
   | ONoHints => (set_hints w no_align, [])
   | OSetId f n => (set_ids w (zupd (w_ids w) f n), same_all w 0 [])
   | OBarrier | OSleep => (w, same_all w 0 [])
-  | OExists f => (w, [(0, (if dk_exists (get_disk w f) then 0 else -1), [])])
+  | OExists f => (w, map (fun r => (r, (if (r =? 0) && negb (dk_exists (get_disk w f)) then -1 else 0), [])) ranks)
   | OSnapshot f =>
       let d := get_disk w f in
       if is_tainted w f then bad else
@@ -1068,6 +1072,10 @@ Definition exec_each (w : world) (os : list op) : world * list obs :=
 
 Definition exec_one (w : world) (rank : Z) (o : op) : world * list obs :=
   let slot := slot_of o in
+  match o with
+  | OExists f => (w, [(rank, (if (rank =? 0) && negb (dk_exists (get_disk w f)) then -1 else 0), [])])
+  | OBarrier | OSleep => (w, [(rank, 0, [])])
+  | _ =>
   match lookup_file w slot with
   | None => (w, [(rank, NC_EBADID, [TSkip])])
   | Some (id, f) =>
@@ -1084,6 +1092,7 @@ Definition exec_one (w : world) (rank : Z) (o : op) : world * list obs :=
       | OInq _ => (w, [(rank, NC_NOERR, inq_toks f rank)])
       | _ => (taint_slot w slot, [(rank, RC_UNMODELLED, [TSkip])])
       end
+  end
   end.
 
 Definition exec_step (w : world) (s : step) : world * list obs :=
